@@ -46,19 +46,21 @@ theorem C07_reject (c : Ctx) (e : Expr) (w : Nat) (hw : 1 ≤ w ∧ w ≤ 32) (v
 
 /-- identical spellings: the bytes a label-free `%push(e)` contributes are determined by the VALUE of `e` alone — the
 opcode `0x5f + byte length`, then the minimal big-endian bytes — so a literal, an arithmetic expression and an
-expression-macro call with the same value give identical bytes, wherever the push stands -/
+expression-macro call with the same value give identical bytes; they stand right after the emission `outPre` of the
+items before the push -/
 theorem C07_spellings (ms : List (String × MacroDef)) (items : List Item) (out : List Nat)
     (a : Assembled ms items out) (pre post : List Item) (e : Expr) (hsplit : items = pre ++ Item.push e :: post)
     (hclosed : labelsOf ms evalFuel 0 e = .ok []) :
     ∃ (outPre outPost : List Nat) (v : Int),
+      emit { labels := a.ls, macros := ms, vars := none, depth := 0 } pre a.ws = .ok outPre ∧
       eval evalFuel { labels := a.ls, macros := ms, vars := none, depth := 0 } e = .ok v ∧ 0 ≤ v ∧
       out = outPre ++ ((0x5f + (bytesBE v.toNat).length) :: bytesBE v.toNat) ++ outPost := by
   subst hsplit
   obtain ⟨v, hv, hv0, hw⟩ := C07_minimal ms _ out a pre post e rfl hclosed
-  obtain ⟨outPre, outPost, v', _, hv', _, _, hout⟩ := C07_exact _ pre post e a.ws out a.emitted
+  obtain ⟨outPre, outPost, v', hpre, hv', _, _, hout⟩ := C07_exact _ pre post e a.ws out a.emitted
   have : v' = v := by rw [hv] at hv'; injection hv' with h; exact h.symm
   subst this
-  refine ⟨outPre, outPost, v', hv, hv0, ?_⟩
+  refine ⟨outPre, outPost, v', hpre, hv, hv0, ?_⟩
   rw [hout, hw]
   simp
 
